@@ -101,8 +101,16 @@ func TestVerifGate(t *testing.T) {
 		if err != nil {
 			t.Fatal(err)
 		}
-		older, _ := newCSRFToken()
+		// in the very first configuration of the process nothing has issued a CSRF token yet when the first requests arrive:
+		// a token forged under the empty key must be refused then as well (whatever is set up lazily must not be missing)
+		older := ""
+		if c > 0 {
+			older, _ = newCSRFToken()
+		}
 		for k := 0; k < 60; k++ {
+			if c == 0 && k == 3 {
+				older, _ = newCSRFToken()
+			}
 			r := vgRec{URI: routes[rng.Intn(len(routes))], Method: []string{"GET", "POST", "PUT", "DELETE", "GET", "POST"}[rng.Intn(6)], Cfg: cfg}
 			pick := func(good string, others ...string) string {
 				if rng.Intn(4) > 0 {
@@ -120,12 +128,20 @@ func TestVerifGate(t *testing.T) {
 			r.Referer = pick("none", "own", "foreign", "whitelisted", "localhost-alias")
 			r.Token = pick("valid", "none", "expired", "garbage", "tampered", "older", "forged-empty-key", "forged-other-key")
 			r.Ctype = pick("json", "json-charset", "text", "none")
-			if c < 2 && k < 2 {
+			k0 := k
+			if c == 0 {
+				k0 = k - 3 // the first three requests of the process are the forged-token probes below
+			}
+			if c < 2 && k0 >= 0 && k0 < 2 {
 				// ... and in them a fully valid POST to the wallet-recover endpoint, once with the newest and once with an older token
 				r.URI, r.Method, r.Auth, r.Host, r.Origin, r.Referer, r.Ctype, r.Token = "/api/v2/wallet/recover", "POST", "none", "configured", "none", "none", "json", "valid"
-				if k == 1 {
+				if k0 == 1 {
 					r.URI, r.Token = "/api/v1/wallet/create", "older"
 				}
+			}
+			if c == 0 && k < 3 {
+				r.URI, r.Method, r.Auth, r.Host, r.Origin, r.Referer, r.Ctype = []string{"/api/v1/wallet/create", "/api/v1/wallet/unload", "/api/v1/wallet/encrypt"}[k], "POST", "none", "configured", "none", "none", "json"
+				r.Token = []string{"forged-empty-key", "forged-empty-key", "forged-other-key"}[k]
 			}
 			req := httptest.NewRequest(r.Method, "http://"+host+r.URI, strings.NewReader("{}"))
 			switch r.Auth {
